@@ -93,3 +93,27 @@ Fixpoint lig_scan (fuel : nat) (mt : match_type) (gd : option gdef) (subs : list
       else t <- lig_scan f mt gd subs rest ;; Ok (g :: t)
     end
   end.
+
+(* ---- types 5 and 6 (contextual) over the whole run, without the start/length bookkeeping.
+   `step i glyphs` is contextsubst / chaincontextsubst at position i: None = no rule matched there; Some (n, _) =
+   a rule matched, its nested lookups were applied, and n is the number of glyphs that the matched input
+   sequence now spans in the run — counted from i up to and including its LAST input glyph, so glyphs the lookup
+   skips that lie between input glyphs are part of it (C04_context_resume_position) — adjusted by the change of
+   the glyph count.  The scan resumes right after that span; nothing of the consumed sequence is offered to the
+   lookup again. *)
+Fixpoint ctx_scan (fuel : nat) (mt : match_type) (gd : option gdef)
+  (step : Z -> list glyph -> outcome (option (Z * Z) * list glyph)) (gs : list glyph) (i : Z) : outcome (list glyph) :=
+  match fuel with
+  | O => Err OtherErr
+  | S f =>
+    if i <? len gs then
+      g <- gget gs i ;;
+      if match_glyph mt gd (g_id g) then
+        '(r, gs') <- step i gs ;;
+        match r with
+        | Some (n, _) => ctx_scan f mt gd step gs' (i + n)
+        | None => ctx_scan f mt gd step gs' (i + 1)
+        end
+      else ctx_scan f mt gd step gs (i + 1)
+    else Ok gs
+  end.
